@@ -42,15 +42,25 @@ type mkey struct {
 // Matcher decides whether a tree is a derivation of a token sequence in the
 // documented grammar (M2). It never looks at precedence: any derivation counts.
 type Matcher struct {
-	toks []MTok
-	df   string
-	pair []int // index of matching bracket for ( ), -1 if none
-	memo map[mkey]bool
+	toks  []MTok
+	df    string
+	pair  []int // index of matching bracket for ( ), -1 if none
+	memo  map[mkey]bool
+	terms []int // terms[i]: number of term tokens before position i
+	cnt   map[*expr.Expression][2]int
 }
 
 // NewMatcher prepares a matcher for a token sequence and default field.
 func NewMatcher(toks []MTok, defaultField string) *Matcher {
 	m := &Matcher{toks: toks, df: defaultField, memo: map[mkey]bool{}}
+	m.cnt = map[*expr.Expression][2]int{}
+	m.terms = make([]int, len(toks)+1)
+	for i, t := range toks {
+		m.terms[i+1] = m.terms[i]
+		if t.Class == gen.TTerm {
+			m.terms[i+1]++
+		}
+	}
 	m.pair = make([]int, len(toks))
 	var st []int
 	for i := range m.pair {
@@ -188,34 +198,104 @@ func (m *Matcher) numberRegion(i, j int, want float64, mustInt bool) bool {
 	return false
 }
 
-func (m *Matcher) listRegion(vals []*expr.Expression, i, j int) bool {
+// listItems flattens [i,j) as an OR-tree of single terms (any association, any
+// redundant parentheses) into the positions of its term tokens, in order.
+func (m *Matcher) listItems(i, j int, out *[]int) bool {
 	i, j = m.stripParens(i, j)
-	if len(vals) == 0 || j <= i {
+	if j <= i {
 		return false
 	}
-	if len(vals) == 1 {
-		return j-i == 1 && vals[0].Op == expr.Literal && tokIsLeaf(m.toks[i], vals[0], false)
+	if j-i == 1 {
+		if m.toks[i].Class != gen.TTerm {
+			return false
+		}
+		*out = append(*out, i)
+		return true
 	}
-	depth := 0
+	depth, start, parts := 0, i, 0
 	for k := i; k < j; k++ {
-		if m.isSym(k, "(") {
+		switch {
+		case m.isSym(k, "("):
 			depth++
-		} else if m.isSym(k, ")") {
+		case m.isSym(k, ")"):
 			depth--
-		} else if depth == 0 && m.isKw(k, "OR") {
-			for c := 1; c < len(vals); c++ {
-				if m.listRegion(vals[:c], i, k) && m.listRegion(vals[c:], k+1, j) {
-					return true
-				}
+			if depth < 0 {
+				return false
 			}
+		case depth == 0 && m.isKw(k, "OR"):
+			if !m.listItems(start, k, out) {
+				return false
+			}
+			start = k + 1
+			parts++
 		}
 	}
-	return false
+	if depth != 0 || parts == 0 {
+		return false // not an OR of smaller lists
+	}
+	return m.listItems(start, j, out)
+}
+
+func (m *Matcher) listRegion(vals []*expr.Expression, i, j int) bool {
+	var at []int
+	if len(vals) == 0 || !m.listItems(i, j, &at) || len(at) != len(vals) {
+		return false
+	}
+	for k, v := range vals {
+		if v.Op != expr.Literal || !tokIsLeaf(m.toks[at[k]], v, false) {
+			return false
+		}
+	}
+	return true
+}
+
+// termBounds returns how many term tokens a derivation of e consumes at least and
+// at most: one per leaf (field names included), plus an optional number per ~ / ^.
+func (m *Matcher) termBounds(x any) (lo, hi int) {
+	switch v := x.(type) {
+	case *expr.Expression:
+		if v == nil {
+			return 0, 0
+		}
+		if c, ok := m.cnt[v]; ok {
+			return c[0], c[1]
+		}
+		if isLeaf(v) {
+			lo, hi = 1, 1
+		} else {
+			l1, h1 := m.termBounds(v.Left)
+			l2, h2 := m.termBounds(v.Right)
+			lo, hi = l1+l2, h1+h2
+			if v.Op == expr.Fuzzy || v.Op == expr.Boost {
+				hi++
+			}
+			if (v.Op == expr.Equals || v.Op == expr.Like) && m.df != "" {
+				lo-- // a default-field wrapper has no field token
+			}
+		}
+		m.cnt[v] = [2]int{lo, hi}
+		return lo, hi
+	case []*expr.Expression:
+		for _, e := range v {
+			l, h := m.termBounds(e)
+			lo, hi = lo+l, hi+h
+		}
+	case *expr.RangeBoundary:
+		if v != nil {
+			l1, h1 := m.termBounds(v.Min)
+			l2, h2 := m.termBounds(v.Max)
+			return l1 + l2, h1 + h2
+		}
+	}
+	return lo, hi
 }
 
 func (m *Matcher) matchE(e *expr.Expression, i, j int) bool {
 	if e == nil || j <= i {
 		return false
+	}
+	if lo, hi := m.termBounds(e); m.terms[j]-m.terms[i] < lo || m.terms[j]-m.terms[i] > hi {
+		return false // wrong number of term tokens for this sub-tree: no derivation
 	}
 	k := mkey{e, i, j}
 	if v, ok := m.memo[k]; ok {
